@@ -11,7 +11,7 @@ import (
 func init() {
 	addArm("C02", "ios", func(rt *rapid.T, ev *evid.Collector) {
 		c := iosCase("C02", iosm.GenPair(rt, iosm.GenOpts{}))
-		judge(rt, ev, oracleC02ios, c, func() any { return c })
+		judge(rt, ev, oracles["C02/ios"], c, func() any { return c })
 	})
 	addArm("C08", "ios", func(rt *rapid.T, ev *evid.Collector) {
 		c := iosCase("C08", iosm.GenPair(rt, iosm.GenOpts{}))
